@@ -467,6 +467,7 @@ type eg struct {
 
 const (
 	classK1 = "K1 JSON of a lambda: function call (the function name is not serialised)"
+	classK12 = "K12 JSON of a lambda: function call without arguments (\"args\": null cannot be read back)"
 	classK4 = "K4 JSON of a lambda: integer literal beyond 2^53 (decoded through float64)"
 	classK10 = "K10 comment directly before a parenthesised regex literal (the formatter drops the parentheses; the regex line is then lexed as part of the comment)"
 	classK5 = "K5 format of an AST built without the parser: string ending in a backslash (needs triple quotes, StringNode.TripleQuotes unset)"
